@@ -303,6 +303,41 @@ void yield(const char* label) {
   if (!g_active || t_self < 0) return;
   point(OP_STEP, label);
 }
+
+// ---- atomics pass (sched/tsanstub_nosan.cpp): an atomic operation of the code under test becomes a scheduling point once
+// its address has been touched by two different threads in this execution (thread-local use, e.g. a shared_ptr that never
+// leaves its thread, adds no points).  Fixed-size open-addressing table, reset with every execution (one process each).
+namespace {
+struct AtomRec {
+  const void* addr;
+  int first;
+  bool multi;
+};
+constexpr size_t kAtomSlots = 1 << 14;
+AtomRec g_atoms[kAtomSlots];
+size_t g_atomPoints = 0;
+}  // namespace
+size_t atomicPoints() { return g_atomPoints; }
+void atomicPoint(const void* addr) {
+  if (!g_active || t_self < 0) return;
+  size_t h = ((uintptr_t)addr >> 2) * 0x9E3779B97F4A7C15ull >> 50;  // 14 bits
+  for (size_t k = 0; k < kAtomSlots; k++) {
+    AtomRec& r = g_atoms[(h + k) & (kAtomSlots - 1)];
+    if (r.addr == nullptr) {
+      r.addr = addr;
+      r.first = t_self;
+      r.multi = false;
+      return;
+    }
+    if (r.addr != addr) continue;
+    if (r.first != t_self) r.multi = true;
+    if (r.multi) {
+      g_atomPoints++;
+      point(OP_STEP, "atomic");
+    }
+    return;
+  }
+}
 void pointIf(const std::function<bool()>& en, const char* label) {
   if (!g_active || t_self < 0) return;
   Thread& t = g_t[t_self];
@@ -317,6 +352,8 @@ using namespace vs;
 
 // ======================================================================================
 extern "C" {
+
+void verif_atomic_point(const void* addr) { vs::atomicPoint(addr); }
 
 typedef int (*mutex_fn)(pthread_mutex_t*);
 int pthread_mutex_lock(pthread_mutex_t* m) {
